@@ -2652,7 +2652,7 @@ tfGetDomSelf(TForm tf)
 
 	tf = tfDefineeType(tf);
 
-	if (tfHasSelf(tf) && tfIsId(tf) && symeExtension(tfIdSyme(tf))) {
+	if (tfHasSelf(tf) && tfIsId(tf) && tfIdSyme(tf) && symeExtension(tfIdSyme(tf))) {
 		return tfGetDomSelf(tfFrSyme(stabFile(), symeExtensionFull(tfIdSyme(tf))));
 	}
 
@@ -3792,7 +3792,7 @@ tfGetDomExports(TForm tf)
 
 	tf = tfIgnoreExceptions(tf);
 
-	if (tfHasSelf(tf) && tfIsId(tf) && symeExtension(tfIdSyme(tf))) {
+	if (tfHasSelf(tf) && tfIsId(tf) && tfIdSyme(tf) && symeExtension(tfIdSyme(tf))) {
 		return tfGetDomExports(tfFrSyme(stabFile(), symeExtensionFull(tfIdSyme(tf))));
 	}
 
